@@ -294,6 +294,9 @@ def gen_history(rng, base, n_ops, n_saves, fail_mode):
                 touched.add(hbase[r[1]]); hbase[nh] = hbase[r[1]]
             v = gen_hvalue(rng, refs_pool())
             h.add(b"U %s %s" % (rtxt(r), cv(v)), "U", r, v); nh += 1; handles.append("u")
+            if rng.random() < 0.35:
+                # a typed read right after the write (and before the next write of the same reference) — what a cached document may get wrong
+                h.add(b"G " + rtxt(r), "G", None)
         elif k == 5:
             h.add(b"P", "P"); pending.append(nh); nh += 1; handles.append("p")
         elif k == 6 and pending:
@@ -502,6 +505,7 @@ def generate(rng, tier):
             h.add(b"G %d,%d" % (n, g), "G", None)
             h.add(b"U %d,%d %s" % (n, g, cv(v2)), "U", ("b", n, g), v2)
             h.add(b"R %d,%d" % (n, g), "R", None)
+            h.add(b"G %d,%d" % (n, g), "G", None)      # a typed read after a REPEATED write, before any save
             h.add(b"C i42", "C", 42)
             h.add(b"C " + cv(Name("bare")), "C", Name("bare"))
             h.add(b"S", "S")
@@ -510,6 +514,34 @@ def generate(rng, tier):
             h.add(b"G h2", "G", None)
             for opt in (b"u", b"c"):
                 yield mk_case(opt, base, h, ["targeted"])
+        # typed reads between repeated writes of references that came from create and from promise + fulfil
+        h = Hist(base)
+        for m in sorted(base.infra):
+            h.add(b"R %d,0" % m, "Rinfra", m)
+        w = [{"K": i, "L": [i, Name("n%d" % i)]} for i in range(6)]
+        h.add(b"C " + cv(w[0]), "C", w[0])                       # h0
+        h.add(b"G h0", "G", None)
+        h.add(b"U h0 " + cv(w[1]), "U", ("h", 0), w[1])          # h1
+        h.add(b"G h0", "G", None)
+        h.add(b"G h1", "G", None)
+        h.add(b"P", "P")                                          # h2
+        h.add(b"F h2 " + cv(w[2]), "F", ("h", 2), w[2])          # h3
+        h.add(b"G h2", "G", None)
+        h.add(b"U h2 " + cv(w[3]), "U", ("h", 2), w[3])          # h4
+        h.add(b"G h2", "G", None)
+        h.add(b"R h2", "R", None)
+        h.add(b"U h0 " + cv(w[4]), "U", ("h", 0), w[4])          # h5
+        h.add(b"G h0", "G", None)
+        h.add(b"S", "S")
+        h.add(b"G h0", "G", None)
+        h.add(b"G h2", "G", None)
+        h.add(b"U h2 " + cv(w[5]), "U", ("h", 2), w[5])          # h6
+        h.add(b"G h2", "G", None)
+        h.add(b"U h2 " + cv(w[0]), "U", ("h", 2), w[0])          # h7
+        h.add(b"G h2", "G", None)
+        h.add(b"S", "S")
+        for opt in (b"u", b"c"):
+            yield mk_case(opt, base, h, ["targeted", "read-between-repeated-writes"])
 
 
 def nontrivial(c):
